@@ -60,7 +60,18 @@ func (e *Engine) verifyFunc(fn *ssa.Function, ct *Contract, prop string) *Run {
 	q := &Query{Name: r.name + "/cover:requires", Props: ct.Props, Fn: r.name, Kind: "cover", PC: append([]string(nil), st.pc...), Uses: sortedKeys(st.uses), Goal: "false", Cover: true, Run: r}
 	r.queries = append(r.queries, q)
 
-	outs := r.execFunc(fn, st, args, bind, 0, true)
+	// an instruction the engine's value model cannot represent (met so far: stores into fields of opaque library structs such as an
+	// http.Server literal) must not take the whole run down with exit status 2: it is a tool error of this function, reported as
+	// "cannot show the property any more" like every other tool error
+	outs := func() (outs []Outcome) {
+		defer func() {
+			if p := recover(); p != nil {
+				r.toolErr("engine cannot model an instruction of %s (internal error: %v)", r.name, p)
+				outs = nil
+			}
+		}()
+		return r.execFunc(fn, st, args, bind, 0, true)
+	}()
 	r.retPaths = len(outs)
 	// vacuity guard: some return path must be reachable under the contracts assumed along it (an inconsistent callee contract or
 	// invariant makes every postcondition hold vacuously). One query: the disjunction of the path conditions of (up to 64) return paths.
